@@ -155,6 +155,8 @@ where
         .sum();
     let kmer_mem = input_kmers * mem::size_of::<(K, D1)>();
     let max_mem = memory_size * 10_usize.pow(9);
+    #[cfg(feature = "verif_hooks")]
+    let max_mem = crate::verif_hooks::max_mem(memory_size, max_mem);
     let slices = kmer_mem / max_mem + 1;
     let sz = 256 / slices + 1;
 
@@ -166,6 +168,8 @@ where
     }
     assert!(bucket_ranges[bucket_ranges.len() - 1].end >= 256);
     let n_buckets = bucket_ranges.len();
+    #[cfg(feature = "verif_hooks")]
+    crate::verif_hooks::record_passes(n_buckets);
 
     if bucket_ranges.len() > 1 {
         debug!(
